@@ -676,13 +676,52 @@ func c02Abst(r *core.Run) {
 		}
 		smallEdges, nSmall := core.GuardEdges(fn, core.BoolGuard(isSmallVal, true))
 		intEdges, nInt := core.GuardEdges(fn, core.BoolGuard(isIntegerVal, true))
-		if len(nSmall) == 0 || len(nInt) == 0 {
+		_ = nSmall
+		if len(nInt) == 0 {
 			continue
 		}
+		// paths are explored under "the literal is an integer": the other outcome of every test of that flag is cut too
+		for e := range intEdges {
+			if e.Via == nil {
+				smallEdges[core.Edge{From: e.From, Idx: 1 - e.Idx}] = true
+			}
+		}
 		var wit []int
+		// how can a returned value be false ("keep") while the small-range test has NOT succeeded (its value taken as
+		// false)? unconditionally (a constant, an open flag), or only when the merge it comes from is entered from
+		// particular predecessors
+		type via struct{ at, pred *ssa.BasicBlock }
+		var falseWays func(v ssa.Value, neg bool, d int) (always bool, vias []via)
+		falseWays = func(v ssa.Value, neg bool, d int) (bool, []via) {
+			base, n2 := core.StripNot(v)
+			neg = neg != n2
+			if d > 4 {
+				return true, nil
+			}
+			if k, isC := base.(*ssa.Const); isC && k.Value != nil && k.Value.Kind() == constant.Bool {
+				return constant.BoolVal(k.Value) == neg, nil // value xor neg == false
+			}
+			if isSmallVal(base) {
+				return !neg, nil // taken as false: false unless negated
+			}
+			if ph, isPhi := base.(*ssa.Phi); isPhi {
+				var vs []via
+				for i, e := range ph.Edges {
+					if i >= len(ph.Block().Preds) {
+						continue
+					}
+					al, sub := falseWays(e, neg, d+1)
+					if al || len(sub) > 0 {
+						vs = append(vs, via{ph.Block(), ph.Block().Preds[i]})
+					}
+				}
+				return false, vs
+			}
+			return true, nil // an open value (a policy switch): can be false
+		}
 		for _, ret := range core.Returns(fn) {
-			k, isC := ret.Results[0].(*ssa.Const)
-			if !isC || k.Value == nil || constant.BoolVal(k.Value) {
+			always, vias := falseWays(ret.Results[0], false, 0)
+			if !always && len(vias) == 0 {
 				continue
 			}
 			nKeep++
@@ -690,8 +729,33 @@ func c02Abst(r *core.Run) {
 				if e.Via != nil {
 					continue
 				}
-				if pth := core.PathAvoiding(e.From.Succs[e.Idx], ret.Block(), smallEdges); pth != nil && wit == nil {
-					wit = append([]int{e.From.Index}, pth...)
+				start := e.From.Succs[e.Idx]
+				if always {
+					if pth := core.PathAvoiding(start, ret.Block(), smallEdges); pth != nil && wit == nil {
+						wit = append([]int{e.From.Index}, pth...)
+					}
+					continue
+				}
+				for _, w := range vias {
+					// reach the merge through that predecessor without the small-range test having succeeded
+					edgeCut := false
+					for si, sb := range w.pred.Succs {
+						if sb == w.at && smallEdges[core.Edge{From: w.pred, Idx: si}] {
+							edgeCut = true
+						}
+					}
+					if edgeCut {
+						continue
+					}
+					var pth []int
+					if start == w.pred {
+						pth = []int{start.Index}
+					} else {
+						pth = core.PathAvoiding(start, w.pred, smallEdges)
+					}
+					if pth != nil && core.ReachAvoiding(w.at, smallEdges)[ret.Block()] && wit == nil {
+						wit = append(append([]int{e.From.Index}, pth...), w.at.Index)
+					}
 				}
 			}
 		}
@@ -893,23 +957,60 @@ func c02VirtualView(r *core.Run) {
 		fa, ok := u.X.(*ssa.FieldAddr)
 		return ok && strings.HasSuffix(core.Deref(fa.X.Type()).String(), "ssa.BasicBlock") && core.FieldName(fa.X.Type(), fa.Field) == "Succs"
 	}
+	// the functions that produce THE block order: what the numbering loop (blockMap[b] = "b<i>") walks, followed
+	// back through appends and through helpers that extend a list they are handed
+	numbering := map[*ssa.Function]bool{}
+	var chase func(v ssa.Value, d int)
+	chase = func(v ssa.Value, d int) {
+		if d > 6 {
+			return
+		}
+		for _, o := range core.Origins(core.Unwrap(v)) {
+			if ap, ok := isBuiltinCall(o, "append"); ok {
+				chase(ap.Call.Args[0], d+1)
+				continue
+			}
+			c, ok := o.(*ssa.Call)
+			if !ok {
+				continue
+			}
+			g := core.StaticCallee(&c.Call)
+			if g == nil || !p.IsProdFunc(g) {
+				continue
+			}
+			extended := false
+			for i, pa := range g.Params {
+				if isBlockSlice(pa.Type()) && i < len(c.Call.Args) {
+					chase(c.Call.Args[i], d+1)
+					extended = true
+				}
+			}
+			if !extended {
+				numbering[g] = true
+			}
+		}
+	}
+	for _, fn := range p.FuncsIn("pkg/analysis/ir") {
+		core.InstrsOf(fn, func(in ssa.Instruction) {
+			mu, ok := in.(*ssa.MapUpdate)
+			if !ok || !isBlockStringMap(mu.Map.Type()) {
+				return
+			}
+			// the key is an element of the walked list
+			if u, isLoad := core.Unwrap(mu.Key).(*ssa.UnOp); isLoad {
+				if ia, isIA := u.X.(*ssa.IndexAddr); isIA {
+					chase(ia.X, 0)
+				}
+			}
+		})
+	}
 	nOrder := 0
 	for _, fn := range p.FuncsIn("pkg/analysis/ir") {
 		if fn == accessor || recorders[fn] {
 			continue
 		}
 		fnm := core.FuncName(fn)
-		rt := resultTypes(fn)
-		orders := len(rt) == 1 && isBlockSlice(rt[0]) && fn.Parent() == nil
-		if orders {
-			hasFn := false
-			for _, pa := range fn.Params {
-				if isSSAFunctionPtr(pa.Type()) {
-					hasFn = true
-				}
-			}
-			orders = hasFn
-		}
+		orders := numbering[fn]
 		direct, viaAccessor := token.NoPos, false
 		core.InstrsOf(fn, func(in ssa.Instruction) {
 			if v, ok := in.(ssa.Value); ok && directSuccs(v) && direct == token.NoPos {
@@ -942,13 +1043,7 @@ func c02VirtualView(r *core.Run) {
 		sl, ok := m.Elem().Underlying().(*types.Slice)
 		return ok && strings.HasSuffix(sl.Elem().String(), "ssa.Instruction")
 	}
-	orderFns := map[*ssa.Function]bool{}
-	for _, fn := range p.FuncsIn("pkg/analysis/ir") {
-		rt := resultTypes(fn)
-		if len(rt) == 1 && isBlockSlice(rt[0]) && fn.Parent() == nil && fn != accessor {
-			orderFns[fn] = true
-		}
-	}
+	orderFns := numbering
 	var blockListOf func(fn *ssa.Function, v ssa.Value, d int) (string, token.Pos)
 	blockListOf = func(fn *ssa.Function, v ssa.Value, d int) (string, token.Pos) {
 		// v: the slice of blocks a loop walks; classify where it comes from
@@ -964,6 +1059,16 @@ func c02VirtualView(r *core.Run) {
 		for _, o := range core.Origins(v) {
 			if c, ok := o.(*ssa.Call); ok && orderFns[core.StaticCallee(&c.Call)] {
 				return "canonical", c.Pos()
+			}
+			// a helper that extends the list it is handed
+			if c, ok := o.(*ssa.Call); ok {
+				if g := core.StaticCallee(&c.Call); g != nil && p.IsProdFunc(g) {
+					for i, pa := range g.Params {
+						if isBlockSlice(pa.Type()) && i < len(c.Call.Args) {
+							return blockListOf(fn, c.Call.Args[i], d+1)
+						}
+					}
+				}
 			}
 			if ap, ok := isBuiltinCall(o, "append"); ok {
 				return blockListOf(fn, ap.Call.Args[0], d+1)
